@@ -97,6 +97,22 @@ Conc(s) ==
     [] s = "vb"   -> <<BS,"v","e","r","b","|","a","%","|">>          \* \verb|a%|
     [] s = "vrb"  -> <<BS,"b","e","g","i","n","{","v","e","r","b","a","t","i","m","}",NL,"a","%",NL,BS,"e","n","d","{","v","e","r","b","a","t","i","m","}">>
     [] s = "vrb2" -> <<BS,"b","e","g","i","n"," ","{","v","e","r","b","a","t","i","m","}","a","%",BS,"e","n","d","{","v","e","r","b","a","t","i","m","}">>
+    \* more of the catalogue (list-of-macros.md): item with label, proof, tabular, accent, horizontal space, phantom, optional arguments
+    [] s = "itl"  -> <<BS,"i","t","e","m","[">>
+    [] s = "ilc"  -> <<"]">>
+    [] s = "bp"   -> <<BS,"b","e","g","i","n","{","p","r","o","o","f","}">>
+    [] s = "ep"   -> <<BS,"e","n","d","{","p","r","o","o","f","}">>
+    [] s = "bt"   -> <<BS,"b","e","g","i","n","{","t","a","b","u","l","a","r","}","{","z","}">>
+    [] s = "et"   -> <<BS,"e","n","d","{","t","a","b","u","l","a","r","}">>
+    [] s = "tamp" -> <<"&">>
+    [] s = "tbsl" -> <<BS,BS>>
+    [] s = "acc"  -> <<BS,"\"","a">>
+    [] s = "hsp"  -> <<BS,"h","s","p","a","c","e","{","1","e","m","}">>
+    [] s = "hs0"  -> <<BS,"h","s","p","a","c","e","{","0","p","t","}">>
+    [] s = "phn"  -> <<BS,"p","h","a","n","t","o","m","{","j","}">>
+    [] s = "capo" -> <<BS,"c","a","p","t","i","o","n","[","z","]","{">>
+    [] s = "seco" -> <<BS,"s","e","c","t","i","o","n","[","z","]","{">>
+    [] s = "tbs"  -> <<BS,"t","e","x","t","b","a","c","k","s","l","a","s","h">>
     \* \LTalter{first}{second}: only the second argument is typeset; files read by \LTinput (created by the harness)
     [] s = "alt" -> <<BS,"L","T","a","l","t","e","r","{">>
     [] s = "acb" -> <<"}","{">>
@@ -182,7 +198,7 @@ ReplChar(s) ==
 ReplSyms == {"tie","nd","md","lq","rq","thin","pct","amp","dol","hsh","usc","lbr","rbr"}
 
 OpenKind(s) ==     \* symbols that open a braced argument / group
-  CASE s = "alt" -> "alt" [] s = "xo" -> "xo" [] s = "ob" -> "grp" [] s = "add" -> "arg" [] s = "fbx" -> "arg" [] s = "tc" -> "arg"
+  CASE s = "itl" -> "ilab" [] s = "capo" -> "fn" [] s = "seco" -> "sec" [] s = "alt" -> "alt" [] s = "xo" -> "xo" [] s = "ob" -> "grp" [] s = "add" -> "arg" [] s = "fbx" -> "arg" [] s = "tc" -> "arg"
     [] s = "fn" -> "fn" [] s = "cap" -> "fn" [] s = "sec" -> "sec" [] s = "sub" -> "sec"
     [] s \in {"uB","uC","uD","uE","uF","uG"} -> "marg" [] s = "uCo" -> "mopt" [] s = "cto" -> "copt"
 LangSel == {"babD", "selD", "selE", "selF"}
@@ -193,7 +209,7 @@ FaultSyms == {"Fim","FimE","Fdm","FdmE","FeqE","FargE","FoptE","FvbE","FveE","Fs
 EofFaults == {"FimE","FdmE","FeqE","FargE","FoptE","FvbE","FveE"}
 \* offset of the problem relative to the start of the symbol
 FaultOff(s) == CASE s = "FargE" -> 13 [] s = "FoptE" -> 5 [] OTHER -> 0
-OpenSyms == {"alt", "xo","ob","add","fbx","tc","fn","cap","sec","sub","uB","uC","uCo","uD","uE","uF","uG","cto"}
+OpenSyms == {"itl", "capo", "seco", "alt", "xo","ob","add","fbx","tc","fn","cap","sec","sub","uB","uC","uCo","uD","uE","uF","uG","cto"}
 MathOpen == {"mo", "mo2"}
 DispOpen == {"ba", "bq", "bd", "bdd"}
 MathBody == {"my","mw","mpl","meq","mal","mfr","msb","msp","mti","mdt","mcm","mob","mcb"}
@@ -217,13 +233,14 @@ BodyOf(d) == CASE d = "dA" -> << <<"t","m">>, <<"t","n">> >>
                [] d = "rB" -> << <<"t","n">>, <<"a",1>> >>
                [] d = "dH" -> << <<"t","m">>, <<"a",1>> >>
                [] d = "rA" -> << <<"t","n">> >>
-BeginSyms == {"bi","be","bu","bl","bm"}
-EndSyms == {"ei","ee","eu","el","em"}
+BeginSyms == {"bi","be","bu","bl","bm","bp","bt"}
+EndSyms == {"ei","ee","eu","el","em","ep","et"}
 EnvOf(s) == CASE s \in {"bi","ei"} -> "itemize" [] s \in {"be","ee"} -> "enumerate"
+              [] s \in {"bp","ep"} -> "proof" [] s \in {"bt","et"} -> "tabular"
               [] s \in {"bu","eu"} -> "unk" [] s \in {"bl","el"} -> "lstlisting" [] s \in {"bm","em"} -> "minipage"
 
 AllSyms == Visible \cup ReplSyms \cup OpenSyms \cup BeginSyms \cup EndSyms \cup
-   {"sp","nl","tab","cm","lb","ix","uk","uk2","cb","skp","par","im","imp","ref","cite","skb","ske","q","fnq","it","vb","vrb","vrb2","ocb","ctc","rbk","up","uA","uBt","uH","hsu","phu","cmf","cmu","acb","ltE","ltD","gld","gls"} \cup DefSyms \cup MathSyms \cup FaultSyms \cup LangSyms
+   {"sp","nl","tab","cm","lb","ix","uk","uk2","cb","skp","par","im","imp","ref","cite","skb","ske","q","fnq","it","vb","vrb","vrb2","ocb","ctc","rbk","up","uA","uBt","uH","hsu","phu","cmf","cmu","acb","ltE","ltD","gld","gls","ilc","tamp","tbsl","acc","hsp","hs0","phn","tbs"} \cup DefSyms \cup MathSyms \cup FaultSyms \cup LangSyms
 
 (***************************************************************************)
 (* Reference state                                                         *)
@@ -244,7 +261,7 @@ Pos0(st) == Len(st.src)          \* 0-based offset of the next character = 1-bas
 
 CurLang(st) == st.lstack[Len(st.lstack)]
 Emit(st, items) == [st EXCEPT !.flows[CurFlow(st)] = @ \o [i \in 1..Len(items) |-> [items[i] EXCEPT !.lg = CurLang(st)]]]
-CwSyms == {"uk", "uk2", "par", "it", "uA", "uH", "mal", "mnn"}        \* symbols whose text ends with a control word
+CwSyms == {"uk", "uk2", "par", "it", "uA", "uH", "mal", "mnn", "tbs"}        \* symbols whose text ends with a control word
 AddSrc(st, s) == [st EXCEPT !.src = @ \o Conc(s), !.cw = s \in CwSyms, !.vis = s \in Visible, !.ls = s]
 Feat(st, f) == [st EXCEPT !.feat = @ \cup {f}]
 \* text seen inside the innermost heading (for the dot rule) and in every enclosing frame
@@ -287,6 +304,8 @@ AllowedCtx(st, s) ==
   \* (excluded from C02/C06, see the statement of C06): only directly after a visible character
   /\ s \in {"tie","thin"} => st.vis
   /\ s = "cb" => st.ctx # <<>> /\ Top(st).k \in {"grp","arg","fn","sec","marg","hid","lang"}
+  \* (\\ directly before the end of a tabular leaves a blank line: C05's matter, and & or \\ alone on a line likewise)
+  /\ s = "et" => st.ls \notin {"tbsl"}
   /\ s = "eol" => st.ctx # <<>> /\ Top(st).k = "lenv" /\ Top(st).nm = "olD"
   /\ s = "eols" => st.ctx # <<>> /\ Top(st).k = "lenv" /\ Top(st).nm = "olsF"
   \* \selectlanguage inside a footnote is local to the footnote in LaTeX; the statement does not say more: not generated
@@ -304,6 +323,13 @@ AllowedCtx(st, s) ==
   /\ (st.mode = "extr" /\ s \in {"fn", "xo"}) => ~InKind(st, "arg") /\ ~InKind(st, "sec") /\ ~InKind(st, "hid")
   /\ (st.mode = "extr" /\ InKind(st, "fn")) => s \in Visible \cup {"sp","nl","ob","cb","uk","cm","im","imp","cmf","tie","nd"}
   /\ s = "xo" => ~InKind(st, "fn") /\ ~InKind(st, "sec")
+  /\ s = "itl" => st.ctx # <<>> /\ Top(st).k = "env" /\ Top(st).last \in {"itemize", "enumerate"}
+  /\ s = "ilc" => st.ctx # <<>> /\ Top(st).k = "ilab"
+  /\ (st.ctx # <<>> /\ Top(st).k = "ilab") => s \in Visible \cup {"sp", "ilc"}
+  /\ s \in {"tamp", "tbsl"} => st.ctx # <<>> /\ Top(st).k = "env" /\ Top(st).last = "tabular"
+  /\ s \in {"capo"} => ~InKind(st, "fn")
+  /\ s \in {"seco"} => ~InKind(st, "sec") /\ ~InKind(st, "arg") /\ st.mode # "extr"
+  /\ s \in {"acc", "hsp", "hs0", "phn", "tbs"} => ~InKind(st, "sec")
   /\ s = "acb" => st.ctx # <<>> /\ Top(st).k = "alt1"
   /\ s = "alt" => ~InKind(st, "sec") /\ ~InKind(st, "fn") /\ ~InKind(st, "arg") /\ ~InKind(st, "alt1") /\ ~InKind(st, "hid")
   /\ (st.ctx # <<>> /\ Top(st).k = "alt1") => s \in Visible \cup {"sp", "acb"}
@@ -470,6 +496,20 @@ Step(st, s) ==
             [s1 EXCEPT !.spans[fr.flow] = <<fr.start+1, p1>>, !.flows = Append(@, <<>>), !.spans = Append(@, <<p0+1, 0>>), !.drop = @ \cup {nf},
                        !.ctx[Len(st.ctx)] = Frame("hid", nf, fr.start)]
          ELSE [s1 EXCEPT !.ctx[Len(st.ctx)] = Frame("arg", fr.mark, fr.start)]
+    \* & and \\ become a blank at their own position; an accent macro becomes the accented letter at the position of the macro
+    [] s \in {"tamp", "tbsl"} -> Emit(s1, <<Lay("x"), It("g", "ws", p0+1, p1, 0), Lay("x")>>)
+    [] s = "acc" -> NoteText(Emit(s1, <<Lay("x"), It("c", "U+00E4", p0+1, p0+1, 1), Lay("x")>>), "U+00E4")
+    [] s = "hsp" -> Emit(s1, <<Lay("x"), It("g", "ws", p0+1, p1, 0), Lay("x")>>)
+    [] s = "hs0" -> Emit(s1, <<Lay("v")>>)
+    [] s = "phn" -> Emit(s1, <<Lay("x"), It("g", "ws", p0+1, p1, 0), Lay("x")>>)
+    [] s = "tbs" -> NoteText(Emit(s1, <<Lay("x"), It("f", BS, p0+1, p1, 0), Lay("x"), Lay("cw")>>), BS)
+    [] s = "ilc" ->
+         \* \item[label]: the label is copied, framed by blanks; a punctuation mark that ends the text before the item may be repeated behind it
+         LET fr == Top(st)
+             seg == SubSeq(st.flows[fr.flow], fr.mark + 1, Len(st.flows[fr.flow]))
+             s2 == [s1 EXCEPT !.ctx = SubSeq(@, 1, Len(@)-1), !.flows[fr.flow] = SubSeq(@, 1, fr.mark)] IN
+         NoteText(Emit(s2, <<Lay("x"), It("g", "ws", fr.start+1, p1, 0)>> \o Opaque(seg) \o
+                           <<It("g", "ipunct", fr.start+1, p1, 0), It("g", "ws", fr.start+1, p1, 0), Lay("x")>>), "l")
     [] s = "gld" -> Emit(Feat(s1, "glossary-loaded"), <<Lay("v")>>)
     \* \gls{ab}: the text of the entry is generated text of this use
     [] s = "gls" -> NoteText(Emit(s1, <<Lay("x"), It("f", "a", p0+1, p1, 0), It("f", "b", p0+1, p1, 0), It("f", "t", p0+1, p1, 0), Lay("x")>>), "t")
@@ -515,6 +555,8 @@ Step(st, s) ==
                \* use before the definition: an unknown macro, its braced argument stays (as a group)
                [AddUnk(Emit(s1, <<Lay("v")>>), MacroChars(MacroOf(s))) EXCEPT !.ctx = Append(@, Frame(IF k = "marg" THEN "grp" ELSE "ubr", CurFlow(st), p0))]
             ELSE [Feat(s1, "umacro") EXCEPT !.ctx = Append(@, [Frame(k, CurFlow(st), p0) EXCEPT !.nm = MacroOf(s), !.mark = Len(st.flows[CurFlow(st)])])]
+         ELSE IF k = "ilab" THEN
+            [s1 EXCEPT !.ctx = Append(@, [Frame(k, CurFlow(st), p0) EXCEPT !.mark = Len(st.flows[CurFlow(st)])])]
          ELSE IF k = "copt" THEN
             [s1 EXCEPT !.ctx = Append(@, [Frame(k, CurFlow(st), p0) EXCEPT !.mark = Len(st.flows[CurFlow(st)])])]
          ELSE [Emit(s1, <<Lay("v")>>) EXCEPT !.ctx = Append(@, Frame(k, CurFlow(st), p0))]
@@ -544,12 +586,17 @@ Step(st, s) ==
              cnt == Len(SelectSeq(st.ctx, LAMBDA f : f.k = "env" /\ f.last = e)) IN
          IF e = "lstlisting" THEN [Emit(s1, <<It("g", "ws", p0+1, p1, 0), Lay("pb")>>) EXCEPT !.ctx = Append(@, Frame("rm", CurFlow(st), p0))]
          ELSE IF e = "minipage" THEN [Emit(s1, <<It("g", "ws", p0+1, p1, 0), Lay("pb")>>) EXCEPT !.ctx = Append(@, fr)]
+         ELSE IF e = "proof" THEN
+            \* amsthm: paragraph break, the title "Proof." and a line break
+            [Emit(s1, <<It("g", "ws", p0+1, p1, 0), Lay("pb"), Lay("x"), It("f", "P", p0+1, p1, 0), It("f", "r", p0+1, p1, 0), It("f", "o", p0+1, p1, 0),
+                        It("f", "o", p0+1, p1, 0), It("f", "f", p0+1, p1, 0), It("f", ".", p0+1, p1, 0), It("g", "ws", p0+1, p1, 0), Lay("x")>>) EXCEPT !.ctx = Append(@, fr)]
+         ELSE IF e = "tabular" THEN [Emit(s1, <<Lay("v")>>) EXCEPT !.ctx = Append(@, fr)]
          ELSE IF e = "unk" THEN [AddUnk(Emit(s1, <<Lay("v")>>), <<"u","n","k">>) EXCEPT !.ctx = Append(@, fr)]
          ELSE [Emit(s1, <<Lay("v")>>) EXCEPT !.ctx = Append(@, [fr EXCEPT !.start = cnt])]   \* start reused: nesting level
     [] s \in EndSyms ->
          LET e == EnvOf(s)
              s2 == [s1 EXCEPT !.ctx = SubSeq(@, 1, Len(@)-1)] IN
-         IF e = "minipage" THEN Emit(s2, <<It("g", "ws", p0+1, p1, 0), Lay("pb")>>)
+         IF e \in {"minipage", "proof"} THEN Emit(s2, <<It("g", "ws", p0+1, p1, 0), Lay("pb")>>)
          ELSE Emit(s2, <<Lay("v")>>)
     [] s = "it" ->
          \* item label: itemize has an empty default label; enumerate counts 1., 2., ... (a., b., ... when nested)
